@@ -2,10 +2,14 @@ package kvstore
 
 import (
 	"encoding/binary"
+	"math"
 	"sync"
 
 	"github.com/iotaledger/hive.go/ierrors"
 )
+
+// ErrSequenceExhausted is returned by Next when no number is left below math.MaxUint64.
+var ErrSequenceExhausted = ierrors.New("sequence exhausted")
 
 // Sequence represents a simple integer sequence backed by a KVStore.
 // A Sequence can be used to get a list of monotonically increasing integers.
@@ -88,8 +92,16 @@ func (seq *Sequence) update() error {
 		seq.next = num
 	}
 
-	// reserve the interval and set in store
-	reserved := seq.next + seq.interval
+	// reserve the interval and set in store; a lease ends at the end of the number space at the latest:
+	// the sum must not wrap around, or the stored value falls behind the numbers that were handed out.
+	lease := seq.interval
+	if remaining := math.MaxUint64 - seq.next; lease > remaining {
+		lease = remaining
+	}
+	if lease == 0 {
+		return ErrSequenceExhausted
+	}
+	reserved := seq.next + lease
 	var buf [8]byte
 	binary.BigEndian.PutUint64(buf[:], reserved)
 	err = seq.store.Set(seq.key, buf[:])
